@@ -616,7 +616,12 @@ def run(ctx: Ctx):
                 "work on nat ids; 30% of the cases take option corners (damping 1e-12..1-1e-12, tol 0..1e9, max_iter 0..10^9, resolution 1e-300..2^60, "
                 "k from -10^18 to 2^60); max_iter sweep 0..40 with a prefix-consistency oracle, omitted-option defaults, resolution sweep; call "
                 "sequences on one shared input in two orders, inputs unchanged, cleared results; structured instances with answers by construction up "
-                "to 65537 nodes (thorough 300000); rare internal events counted by reference ports and searched for when missing")
+                "to 65537 nodes (thorough 300000); rare internal events counted by reference ports and searched for when missing.  Round-3 families "
+                "(harness/props/C15_r3.py): work volume - every loop driven past 2^7..10^5 iterations (pagerank 196237 power iterations on a 3-node "
+                "slow-mixing graph with the exact stationary vector, tol=0 runs at max_iter 2^7..10^5 +-1, 10^5 DFS calls / k-core pops / levels / "
+                "adjacency entries, 11175 bucket moves, louvain 58 sweeps = 174000 node visits with the loop structure read from the trace); in-place "
+                "edits of ONE live graph behind ONE neighbour-function object and ONE node list between calls of all six functions, judged against the "
+                "brute-force references on the current graph and a deep copy; finite float extremes in every numeric argument")
     ctx.proof_step(["C15"])
     ctx.notes += [
         "pagerank model is exact in Q with the nominal rational damping p/q (the run uses float(p/q)); scores/objective compared with 1e-9; "
@@ -629,13 +634,15 @@ def run(ctx: Ctx):
         "kcore: buckets[k].pop() order is not observable; the model pops the first element; compared observable (core numbers) is "
         "pick-independent by theorem C15_kcore",
         "articulation/bridges: model follows _undirected_adjacency insertion order; results compared as sets (the property leaves the order free); the model is proved exact (C15_artic_points_exact / C15_artic_bridges_exact) and the implementation answer is additionally certified per case by ap_spec_check / br_spec_check",
+        "OUTSIDE the property, observation only (counted in histogram observation_only, never judged; POLICY_X a/b/d): NaN / +-inf / |x| >= 1e300 as "
+        "tol, damping, resolution or k; damping outside [0,1]; a node listed twice in `nodes`",
         "node lists without repeated nodes; bridges is run only under strictly monotone orderable label maps (its documented (u < v) orientation needs an "
         "order); louvain modularity tolerance is 1e-9 * max(1, |Q|) (resolution up to 2^60 makes |Q| ~ 1e17, where 1e-9 absolute is below one ulp)",
         "pagerank cases with damping denominators > 1000 are replayed in Coq only up to 8 iterations, max_iter > 5000 is passed to the model as 5000 "
         "(same stopping iteration); structured large instances, call sequences and negative / huge k are judged by the Python references only",
     ]
     big = ctx.tier == "thorough"
-    cases = all_cases(ctx, ctx.budget(260, 5000), big)
+    cases = all_cases(ctx, ctx.budget(230, 5000), big)
     acc = {k: [] for k in CHECKS}
     acc["_events"] = {}
 
